@@ -123,13 +123,14 @@ def gen_program(rng, cfg):
     def rcoef(density=0.8):
         return [[gen.nz2(rng, -2, 2) if rng.random() < density else 0.0 for _ in range(k)] for nm, k in groups]
 
-    for _ in range(rng.randint(1, 4)):
+    only_eq = cls in ('LP', 'SOCP') and rng.random() < 0.12       # no inequality rows at all (bounds aside)
+    for _ in range(0 if only_eq else rng.randint(1, 4)):
         a = rcoef()
         cons.append(['<=', lin(a), ['c', round(linval(a) + gen.r2(rng, 0.0, 2.0), 4)]])
-    if rng.random() < 0.4:
+    if only_eq or rng.random() < 0.4:
         a = [[gen.nz2(rng, -2, 2) for _ in range(n)]]
         cons.append(['==', ['@', ['c', a[0]], ['v', 'x']], ['c', round(float(np.dot(a[0], x0)), 6)]])
-    if cls in ('SOCP', 'MISOCP'):
+    if cls in ('SOCP', 'MISOCP') or (cls == 'EXP' and rng.random() < 0.5):
         for _ in range(rng.randint(1, 2)):
             how = rng.randrange(3)
             if how == 0:
